@@ -235,6 +235,16 @@ func faults() []fault {
 			_, err := invoke(e.a, "big", 70000)
 			return err
 		}},
+		fault{name: "responses-around-the-datagram-limit", class: "conn", kinds: "udp", inject: func(e *env) error {
+			// encoded answers from just below to just above what a datagram carries, byte by byte
+			for n := 65470; n <= 65515; n++ {
+				res, err := invoke(e.a, "big", n)
+				if err == nil && (len(res) != 1 || len(res[0].([]byte)) != n) {
+					return fmt.Errorf("big(%d) returned a result of another size", n)
+				}
+			}
+			return nil
+		}},
 	)
 	// frames from a third peer
 	type rawFault struct {
@@ -612,7 +622,7 @@ func clientFault(c *h.Case, kind string, v respFault) {
 		for {
 			select {
 			case q := <-rawSrv.Reqs:
-				if atomic.LoadInt32(&faulty) == 1 {
+				if atomic.LoadInt32(&faulty) == 1 && strings.Contains(string(q.Body), "666") {
 					v.reply(rawSrv, q)
 				} else {
 					rawSrv.Reply(q.Conn, q.Index, []byte(`R5z`), false)
@@ -644,7 +654,7 @@ func clientFault(c *h.Case, kind string, v respFault) {
 	}
 	for i := 0; i < 3; i++ {
 		ctx, cancel := context.WithTimeout(context.Background(), 400*time.Millisecond)
-		res, err := a.InvokeContext(ctx, "ok", []interface{}{4})
+		res, err := a.InvokeContext(ctx, "ok", []interface{}{666})
 		cancel()
 		r.Eval(1)
 		if err == nil && v.name != "stray-then-good" {
@@ -652,6 +662,17 @@ func clientFault(c *h.Case, kind string, v respFault) {
 		}
 		if err != nil && v.name == "stray-then-good" {
 			c.Violation("good-response-after-stray-refused:"+kind, err.Error(), rep)
+		}
+		// the very next call of the same client, which the peer answers properly, must succeed
+		for k := 0; k < 3; k++ {
+			ctx, cancel = context.WithTimeout(context.Background(), 3*time.Second)
+			res, err = a.InvokeContext(ctx, "ok", []interface{}{4})
+			cancel()
+			r.Eval(1)
+			if err != nil || len(res) != 1 || fmt.Sprint(res[0]) != "5" {
+				c.Violation("next-call-after-malformed-response-fails:"+kind+":"+v.name, fmt.Sprintf("call %d issued right after the faulty call had returned: res=%v err=%v", k+1, res, err), rep)
+				break
+			}
 		}
 	}
 	atomic.StoreInt32(&stop, 1)
